@@ -6,7 +6,7 @@ PROP = 'C08'
 # UltraMatrixGraph, function by function -> Gen/UGraphFns.lean; Props/C08Gen.lean proves every generated definition equal to the
 # hand model the C08 theorems are about (on every well-formed state) and transports the theorems to the generated step function
 TRANSLATORS = ['ugraph', 'ugraphfns']
-EXTRA_THEOREM_MODULES = ['DcVerif.Props.C08Gen', 'DcVerif.Props.C15Gen']   # C15Gen: C15's statements on the generated shortest_path
+EXTRA_THEOREM_MODULES = ['DcVerif.Props.C08Gen', 'DcVerif.Props.C15Gen', 'DcVerif.Props.C01Store']   # C15Gen: C15's statements on the generated shortest_path
 RULE = ('histories of 1-80 ops (thorough: up to 250) over add/addroot/rmnode/edge/edgew/rmedge/clear, built through every '
         'public constructor with initial capacities 0-4 (forces matrix growth 0/1/2/3/4 -> 4 -> 8 -> 16 ...); targets drawn '
         'mostly from the indices returned so far (live or removed, so that index reuse after removals, duplicate edges, '
